@@ -15,3 +15,19 @@
 From Edit Require Import GenEditFacts.
 
 Definition C03_expected_batch : batch_mode := BatchValidated.
+
+(** Two more hand-edited lines (same tool: tools/c03_switch.py getters|inputs|containers snapshot|repaired <hash>;
+    `containers` flips both).  The repair fixes/C03-containers-are-values.diff covers both; its getter half is identical to
+    fixes/C13-query-results-are-copies.diff, its other half alone is fixes/C03-mutators-copy-containers.diff.
+
+    [C03_expected_getters]
+      Aliased   get_parameter_values / get_initial_conditions return the cache's own dicts (recorded finding
+                C03-query-results-alias-cache; theorems C03_exchanged_containers_are_values_partial, C03_getters_alias_cache_refuted)
+      Copied    they return copies
+    [C03_expected_inputs]
+      Aliased   the mutators given args= / outputs= / stoichiometries= keep the caller's list / dict objects (recorded finding
+                C03-mutators-keep-caller-lists; theorems ..._partial, C03_mutators_keep_lists_refuted)
+      Copied    they copy them
+    Both Copied: theorem C03_exchanged_containers_are_values applies (no guard). *)
+Definition C03_expected_getters : alias_mode := Copied.
+Definition C03_expected_inputs : alias_mode := Copied.
